@@ -1332,7 +1332,10 @@ def run_bs(sim, scn, chunk, wid, nworld):
     for kind, detail in viols:
         sim.violation(kind, dict(detail, world=wid, workload="Bs"))
     if ob["tap_late"]:
-        sim.anomaly("dispatch-after-close", "%d message(s) handed on after the endpoint closed the connection" % len(ob["tap_late"]))
+        # (whether the bytes behind the message that ended the connection arrive in the same segment or a moment later
+        # must make no difference: cut off there, they are never looked at)
+        sim.violation("C15/dispatched-after-close", {"n": len(ob["tap_late"]), "first": brief(ob["tap_late"][0]) if isinstance(ob["tap_late"][0], dict) else str(ob["tap_late"][0])[:80],
+                                                     "world": wid, "workload": "Bs"})
     if ob["fatal_late"]:
         sim.anomaly("exception-after-close", "data_received raised while handling bytes that followed its own close()")
     count_outcome_probes(sim, O)
@@ -1521,7 +1524,10 @@ def run_bc(sim, scn, chunk, wid, nworld):
     for kind, detail in viols:
         sim.violation(kind, dict(detail, world=wid, workload="Bc"))
     if ob["tap_late"]:
-        sim.anomaly("dispatch-after-close", "%d message(s) handed on after the endpoint closed the connection" % len(ob["tap_late"]))
+        # (whether the bytes behind the message that ended the connection arrive in the same segment or a moment later
+        # must make no difference: cut off there, they are never looked at)
+        sim.violation("C15/dispatched-after-close", {"n": len(ob["tap_late"]), "first": brief(ob["tap_late"][0]) if isinstance(ob["tap_late"][0], dict) else str(ob["tap_late"][0])[:80],
+                                                     "world": wid, "workload": "Bc"})
     if ob["fatal_late"]:
         sim.anomaly("exception-after-close", "data_received raised while handling bytes that followed its own close()")
     for tag, rec in outcomes.items():
